@@ -441,6 +441,7 @@ func checkC04(c *Ctx, r *Report) {
 	r.rule("C04.R3", "reflect Field/Index arguments are in range", 4)
 	r.rule("C04.R4", "BIT STRING unused-bit count within 0..7", 1)
 	r.rule("C04.R5", "BOOLEAN contents 0xFF / 0x00", 2)
+	r.rule("C04.R11", "a declared tag number reaches the encoder in full width: the number parsed from the `ber:` tag is neither parsed nor converted in fewer bits than the member that holds it", 1)
 	r.rule("C04.R6", "errors are returned: recursive calls, unsupported constructs, top level", 4)
 	r.rule("C04.R7", "the content encoder is stored on every path that uses it (no nil-interface call)", 2)
 	r.rule("C04.R9", "tag-number, length and INTEGER octet counts are exactly the minimal number of digits for every value (exact interval partition), digits written most significant first", 6)
@@ -548,6 +549,7 @@ func checkC04(c *Ctx, r *Report) {
 	}
 
 	// ---- R6 error propagation
+	checkParseWidths(c, r, "C04.R11", c.fn("cdr/asn", "parseFieldParameters"))
 	c04ErrorPropagation(c, r, mk, "C04.R6")
 	top := c.fn("cdr/asn", "BerMarshalWithParams")
 	c04ErrorPropagation(c, r, top, "C04.R6")
@@ -752,6 +754,7 @@ func checkC05(c *Ctx, r *Report) {
 	r.rule("C05.R2", "every schema type is decodable: members and alternatives tagged, tags unique, leaf kinds handled (exhaustive)", 190)
 	r.rule("C05.R11", "a member the encoder cannot encode makes the whole encoding fail (shared with C04.R6): an error that is dropped leaves the member out or encodes something else, and the value read back differs without any error", 4)
 	r.rule("C05.R12", "the decoder refuses no tag number the encoder writes: an error exit decided by the value of the tag number leaves 31..2^21 (everything the high-tag-number form is used for) accepted", 1)
+	r.rule("C05.R13", "both halves see the declared tag numbers in full width (shared with C04.R11)", 1)
 	r.rule("C05.R3", "unsupported constructs return an error in both halves", 2)
 	r.rule("C05.R4", "decoder stores values of the right type (reflect Set assignability)", 3)
 	r.rule("C05.R10", "the decoder takes class, form and tag number from the bits the encoder (and X.690 8.1.2) puts them in", 5)
@@ -795,6 +798,7 @@ func checkC05(c *Ctx, r *Report) {
 	c05IntegerSigned(c, r, "C05.R7")
 	c05DescentOffsets(c, r, "C05.R8")
 	c05TagAcceptRange(c, r, "C05.R12")
+	checkParseWidths(c, r, "C05.R13", c.fn("cdr/asn", "parseFieldParameters"))
 	c04DigitCounts(c, r, "C05.R9")
 	berHeaderDecoder(c, r, "C05.R10")
 	codecPurity(c, r, []*ssa.Function{c.fn("cdr/asn", "UnmarshalWithParams"), c.fn("cdr/asn", "Unmarshal")}, modPath+"/cdr/asn", "C05.R6", "decode")
